@@ -121,6 +121,68 @@ def r_verdict_map(ctx):
                           f"returns {show(rv)[:200] if isinstance(rv, tuple) else rv}", "processscheduler/solver.py")
 
 
+def r_stream_exact(ctx):
+    """everything SchedulingSolver.initialize() hands to the solver belongs to one of the documented groups, each of which is
+    decided by its own rule: the drains of the registries (R-DRAIN), `end <= horizon` per task (R-HORIZON), the work amount
+    (R-WORK-AMOUNT), the pairwise non-overlap of a worker's busy intervals (R-PAIRWISE), the buffer encoding
+    (R-BUF-ENCODING) and the equivalent weighted objective (R-WEIGHTED).  Any other assertion narrows the set of schedules
+    beyond what the elements of the problem mean: valid schedules are lost."""
+    from rules import tasks as task_rules
+    from sa.decide import canon
+    where = "SchedulingSolver.initialize"
+    SP = S("self.problem")
+    n = 0
+    found = {}
+    for run in task_rules.init_runs(ctx, "R-STREAM-EXACT"):
+        for sig, bodies in stream_groups(run).items():
+            loops, guards = sig
+            for body in bodies:
+                n += 1
+                first = norm(loops[0][3]) if loops else None
+                claimed = None
+                if not loops:
+                    if "Equivalent" in show(body):
+                        claimed = "R-WEIGHTED"
+                elif len(loops) == 1 and first == norm(A(SP, "_z3_assertions")) and body == elem(loops[0]):
+                    claimed = "R-DRAIN"
+                elif len(loops) == 2 and norm(loops[1][3]) == norm(A(elem(loops[0]), "_z3_assertions")) and body == elem(loops[1]):
+                    claimed = "R-DRAIN"
+                elif first == norm(A(SP, "buffers")):
+                    claimed = "R-BUF-ENCODING"
+                elif first == norm(task_rules.values_of("tasks")) and len(loops) == 1:
+                    t_ = elem(loops[0])
+                    if not guards and canon(body) == canon(le(A(t_, "_end"), A(SP, "_horizon"))):
+                        claimed = "R-HORIZON"
+                    elif any("work_amount" in show(g_) for g_ in guards) and "work_amount" in show(body):
+                        claimed = "R-WORK-AMOUNT"
+                elif first == norm(task_rules.values_of("workers")) and len(loops) == 3 and "_busy_intervals" in show(loops[1][3]):
+                    claimed = "R-PAIRWISE"
+                if claimed is None:
+                    found.setdefault((show_sig(sig)[:160], show(norm(body))[:200]), describe_config(run))
+    for (sg, bd), cfgs in sorted(found.items()):
+        ctx.violation("R-STREAM-EXACT", where, f"assertion outside the documented groups: {bd[:80]}",
+                      f"initialize() asserts {bd} for [{sg}] (on [{cfgs[:120]}]): it belongs to none of the documented groups - task / "
+                      f"resource / constraint / indicator / buffer drains, end <= horizon, work amount, non-overlap, buffer encoding, "
+                      f"weighted objective - and removes schedules that every element of the problem allows", "processscheduler/solver.py")
+    ctx.floor("R-STREAM-EXACT", "assertion groups classified", n, 200)
+    if not found:
+        ctx.ok("R-STREAM-EXACT", f"every assertion group of initialize() is one of the documented groups ({n} group instances)")
+
+
+def r_nothing_left_on_the_stack(ctx):
+    """a 'no solution' answer is about the problem only if nothing an earlier call asserted is still on the solver's stack:
+    every pushed scope is popped on every exit (R-PUSH-POP), answering methods assert only inside pushed scopes
+    (R-SCOPED-ASSERT) - shared with C12 / C13 / C16"""
+    from rules import driver
+    driver.r_push_pop(ctx)
+    driver.r_scoped_assert(ctx)
+
+
+def r_check_is_fresh(ctx):
+    from rules import driver
+    driver.r_check_fresh(ctx)
+
+
 RULES = [
     r_task_exact,
     task_constraints.r_tc_relation,
@@ -131,4 +193,7 @@ RULES = [
     optional.r_sched_guard,
     r_const_guard,
     r_verdict_map,
+    r_nothing_left_on_the_stack,
+    r_check_is_fresh,
+    r_stream_exact,
 ]
